@@ -117,7 +117,7 @@ CHECKS = {
     "C15": (
         "E2",
         "bounded-exhaustive enumeration of statements per syntactic family; each accepted statement and its echo are interpreted by the real pipeline in two clones of the same pre-state and compared (acceptance, type, bit-exact value, printed output, second echo, probes of the defined names)",
-        "Every fully parenthesised operator nesting of depth <= 2 over {2, 0.1, x2, m, s} x {+ - * / ^ per -> juxtaposition, unary -, !, ², call} (thorough: + every depth-3 chain and a sixth atom), boolean/comparison nestings, conditionals in every operand position and as receiver of field access / call / conversion, type and dimension expressions of depth <= 2 (exponents 2,3,-1,1/3,-2/3,2/3,12,15,0) in every annotation position, inferred signatures with exponent denominators up to 15, where clauses, every decorator form x unit form, strings over an escape/interpolation/format-specifier alphabet (all pairs), temperature sugar in every operand position, date arithmetic, number spellings, procedure calls, the whole C02 program space and the C09 expression space (size <= 4 / 5): the echo must be accepted in the same pre-state, have the same type and bit-equal value, print the same, echo to itself, and leave the defined names behaving identically.",
+        "Every fully parenthesised operator nesting of depth <= 2 over {2, 0.1, x2, m} (thorough: + s, 3) x {+ - * / ^ per -> juxtaposition, unary -, !, ², call} (thorough: + every depth-3 chain and a sixth atom), boolean/comparison nestings, conditionals in every operand position and as receiver of field access / call / conversion, type and dimension expressions of depth <= 2 (exponents 2,3,-1,1/3,-2/3,2/3,12,15,0) in every annotation position, inferred signatures with exponent denominators up to 15, where clauses, every decorator form x unit form, strings over an escape/interpolation/format-specifier alphabet (all pairs), temperature sugar in every operand position, date arithmetic, number spellings, procedure calls, the whole C02 program space and the C09 expression space (size <= 4 / 5): the echo must be accepted in the same pre-state, have the same type and bit-equal value, print the same, echo to itself, and leave the defined names behaving identically.",
         "Trusted: the echo is Statement::pretty_print as returned by interpret_with_settings; string decorators are only required to survive textually; bounded by the alphabets and depths listed. Six classes of echo defects are recorded findings (regrouping of sums/products and exponent spelling are pinned by the suite).",
         "§4 C15",
     ),
